@@ -76,6 +76,9 @@ func (s *Server) urlGenHandlerFunc(w http.ResponseWriter, r *http.Request) {
 		for _, aI := range aInfo.Assets {
 			if aI.Path == asset {
 				data.DRMs = drmsFromAssetInfo(aI, s.Cfg.DrmCfg, "")
+				if len(data.DRMs) == 0 {
+					continue // no DRM configuration loaded
+				}
 				data.DRMs[0].Selected = true
 			}
 		}
